@@ -157,6 +157,8 @@ pub fn p_canonization_ind(
     best: &mut [u64],
     all_swaps: &[u8],
 ) -> usize {
+    #[cfg(feature = "verif-hooks")]
+    verif_hooks::record(all_swaps, &[]);
     best.clone_from_slice(table);
     let mut best_ind = 0;
     let mut ind = 0;
@@ -178,6 +180,8 @@ pub fn n_canonization_ind(
     best: &mut [u64],
     all_flips: &[u8],
 ) -> usize {
+    #[cfg(feature = "verif-hooks")]
+    verif_hooks::record(&[], all_flips);
     best.clone_from_slice(table);
     let mut best_ind = 0;
     let mut ind = 0;
@@ -202,6 +206,8 @@ pub fn npn_canonization_ind(
     all_swaps: &[u8],
     all_flips: &[u8],
 ) -> usize {
+    #[cfg(feature = "verif-hooks")]
+    verif_hooks::record(all_swaps, all_flips);
     best.clone_from_slice(table);
     let mut best_ind = 0;
     let mut ind = 0;
@@ -345,6 +351,32 @@ pub fn npn_canonization(
         let all_flips = generate_gray_flips(num_vars, true);
         let best_ind = npn_canonization_ind(num_vars, table, best, &all_swaps, &all_flips);
         npn_canonization_res(num_vars, res_perm, &all_swaps, &all_flips, best_ind)
+    }
+}
+
+/// Recorder for the swap / flip sequences actually walked by the canonization routines
+///
+/// Only compiled with the `verif-hooks` feature; used by external runtime monitors.
+#[cfg(feature = "verif-hooks")]
+pub mod verif_hooks {
+    use std::cell::RefCell;
+
+    thread_local! {
+        static LAST_SEQUENCES: RefCell<(Vec<u8>, Vec<u8>)> = RefCell::new((Vec::new(), Vec::new()));
+    }
+
+    pub(crate) fn record(all_swaps: &[u8], all_flips: &[u8]) {
+        LAST_SEQUENCES.with(|s| *s.borrow_mut() = (all_swaps.to_vec(), all_flips.to_vec()));
+    }
+
+    /// Swap and flip sequences handed to the last canonization walk run on this thread
+    pub fn last_canonization_sequences() -> (Vec<u8>, Vec<u8>) {
+        LAST_SEQUENCES.with(|s| s.borrow().clone())
+    }
+
+    /// Forget the recorded sequences
+    pub fn clear_canonization_sequences() {
+        record(&[], &[]);
     }
 }
 
